@@ -651,7 +651,7 @@ package router
 //@   trusted
 //@   # assumed frame: the packet (fields and bytes) and scratch buffers of the processor, never the processor's pointers
 //@   modifies *p.pkt, *p.pkt.buffer, arr(p.pkt.RawPacket), arr(p.macInputBuffer), scmpPrepared
-//@   gset scmpPrepared := scmpPrepared + 1
+//@   gset scmpPrepared := old(scmpPrepared) + 1
 //@ # when the upper layer of the offending packet is SCMP, a reply is built only if its header decodes (4 bytes) and
 //@ # its type is informational (> 127): everything else is dropped with an error before prepareSCMP runs
 //@ ghost var scmpPrepared int
@@ -689,14 +689,18 @@ package router
 //@ # ---- C14: packet buffer ownership as seen by one stage (one goroutine): owned[q] = "this stage holds q"
 //@ # (the pool, the processor queues and the links transfer ownership; what other goroutines hold is not in this view)
 //@ ghost var owned map[*Packet]bool
+//@ # ... and how many it holds (maintained by the same three operations: Get +1, Put and hand-off -1)
+//@ ghost var heldCount int
 //@ # assumed: the pool hands out a packet nobody holds (channel of free packets), Put gives the packet away
 //@ func (*PacketPool).Get
 //@   trusted
-//@   modifies owned
+//@   modifies owned, heldCount
+//@   gset heldCount := old(heldCount) + 1
 //@   ensures result != nil && !old(owned[result]) && owned[result]
 //@   ensures forall q *Packet :: q != result ==> owned[q] == old(owned[q])
 //@ func (*PacketPool).Put
 //@   trusted
 //@   requires owned[pkt]
-//@   modifies owned[pkt]
+//@   modifies owned[pkt], heldCount
+//@   gset heldCount := old(heldCount) - 1
 //@   ensures !owned[pkt]
